@@ -291,3 +291,116 @@ func VP_KF_C03_1() {
 	res := New(pb).Optimal(nil, nil)
 	zzvp.Assert(res.Status == Sat && res.Weight == -3, "optimum of -2 x1 - x2 subject to x1 is -3")
 }
+
+// VP_C03_optim_skeleton: clause skeletons over 5-6 variables (symbolic signs),
+// an optional unit clause, and a cost function over all variables with
+// solver-enumerated weights: several improvement rounds, cost literals fixed
+// at top level, weight-sorted bound constraints.
+func VP_C03_optim_skeleton() {
+	zzvp.IntMode(true)
+	var sk [][]int
+	switch zzvp.Choose("skeleton", zzvp.Param("nskel", 3)) {
+	case 0:
+		sk = [][]int{{4, 1}, {-4, 3, 5}, {5, 2, 1}}
+	case 1:
+		sk = vpRandom3SAT(6, 5, zzvp.Param("seed", 0)+1)
+	default:
+		sk = [][]int{{1, 2}, {2, 3, 4}, {4, 5}, {5, 6, 1}, {3, 6}}
+	}
+	maxSym := zzvp.Param("maxsigns", 4)
+	n, cnt := 0, 0
+	var orig [][]int
+	for _, c := range sk {
+		b := make([]int, len(c))
+		for i, l := range c {
+			if v := vpAbs(l); v > n {
+				n = v
+			}
+			b[i] = l
+			if cnt < maxSym {
+				b[i] = zzvp.Concretize(zzvp.Ite(zzvp.Bool("flip"), -l, l))
+				cnt++
+			}
+		}
+		orig = append(orig, b)
+	}
+	if u := zzvp.Choose("unit", n+1); u > 0 {
+		l := u
+		if zzvp.Choose("unit-neg", 2) == 1 {
+			l = -u
+		}
+		orig = append(orig, []int{l})
+	}
+	cl := make([]int, n)
+	cw := make([]int, n)
+	for i := range cl {
+		cl[i] = i + 1
+		cw[i] = zzvp.Concretize(zzvp.Int("cw", 1, zzvp.Param("W", 2)))
+	}
+	mk := func() *Problem {
+		c := make([][]int, len(orig))
+		for i := range orig {
+			c[i] = vpCopy(orig[i])
+		}
+		pb := ParseSliceNb(c, n)
+		pb.SetCostFunc(vpLits(cl), vpCopy(cw))
+		return pb
+	}
+	best := -1
+	for a := 0; a < 1<<uint(n); a++ {
+		all := true
+		for _, c := range orig {
+			ok := false
+			for _, l := range c {
+				if ((a>>uint(vpAbs(l)-1))&1 == 1) == (l > 0) {
+					ok = true
+				}
+			}
+			if !ok {
+				all = false
+				break
+			}
+		}
+		if !all {
+			continue
+		}
+		c := 0
+		for i := range cl {
+			if (a>>uint(i))&1 == 1 {
+				c += cw[i]
+			}
+		}
+		if best == -1 || c < best {
+			best = c
+		}
+	}
+	res := New(mk()).Optimal(nil, nil)
+	if best == -1 {
+		zzvp.Assert(res.Status == Unsat, "no model exists but Optimal does not answer Unsat")
+		zzvp.Reach("unsat")
+	} else {
+		zzvp.Assert(res.Status == Sat, "a model exists but Optimal does not answer Sat")
+		if res.Status == Sat {
+			cost := 0
+			for i := range cl {
+				if res.Model[i] {
+					cost += cw[i]
+				}
+			}
+			zzvp.Assert(res.Weight == cost, "Optimal: reported cost differs from the cost of the returned model")
+			zzvp.Assert(res.Weight == best, "Optimal: reported cost is not the minimum")
+			for _, c := range orig {
+				ok := false
+				for _, l := range c {
+					if res.Model[vpAbs(l)-1] == (l > 0) {
+						ok = true
+					}
+				}
+				zzvp.Assert(ok, "Optimal: the model violates a clause")
+			}
+		}
+		zzvp.Reach("sat")
+	}
+	c2 := New(mk()).Minimize()
+	zzvp.Assert(c2 == best, "Minimize: returned cost is not the minimum (or -1 for Unsat)")
+}
